@@ -489,6 +489,13 @@ func (sc *spliceCtx) hoistable(call *ast.CallExpr) (ast.Stmt, error) {
 			switch x.(type) {
 			case *ast.AssignStmt, *ast.ExprStmt, *ast.ReturnStmt, *ast.DeclStmt, *ast.SendStmt:
 				stmt = x
+			case *ast.IfStmt:
+				// the condition of an if without an init statement is evaluated once, before anything in the statement
+				ifs := x.(*ast.IfStmt)
+				if ifs.Init != nil || !(ifs.Cond.Pos() <= call.Pos() && call.End() <= ifs.Cond.End()) {
+					return nil, fmt.Errorf("the call is nested in a statement that cannot take a hoisted operand")
+				}
+				stmt = x
 			default:
 				return nil, fmt.Errorf("the call is nested in a statement that cannot take a hoisted operand")
 			}
